@@ -484,8 +484,10 @@ def unroll_literal_loops(trees: Dict[str, ast.Module], max_rows: int = 32) -> in
             if isinstance(x, ast.AugAssign) and isinstance(x.target, ast.Name):
                 mutated.add(x.target.id)
 
-        def table_of(it):
-            if isinstance(it, ast.Name) and it.id in consts and counts.get(it.id, 0) == 1 and it.id not in mutated:
+        def table_of(it, local_tables=None):
+            if isinstance(it, ast.Name) and local_tables and it.id in local_tables:
+                it = local_tables[it.id]
+            elif isinstance(it, ast.Name) and it.id in consts and counts.get(it.id, 0) == 1 and it.id not in mutated:
                 it = consts[it.id]
             if isinstance(it, (ast.Tuple, ast.List)) and 0 < len(it.elts) <= max_rows and not any(isinstance(e, ast.Starred) for e in it.elts):
                 return it.elts
@@ -504,8 +506,8 @@ def unroll_literal_loops(trees: Dict[str, ast.Module], max_rows: int = 32) -> in
                         setattr(s, fld, rewrite(b, fn_locals))
                 for h in getattr(s, "handlers", []) or []:
                     h.body = rewrite(h.body, fn_locals)
-                rows = table_of(s.iter) if isinstance(s, ast.For) and not s.orelse else None
-                if rows is not None and isinstance(s.iter, ast.Name) and s.iter.id in fn_locals:
+                rows = table_of(s.iter, fn_locals.get("__tables__")) if isinstance(s, ast.For) and not s.orelse else None
+                if rows is not None and isinstance(s.iter, ast.Name) and s.iter.id in fn_locals and s.iter.id not in (fn_locals.get("__tables__") or {}):
                     rows = None  # shadowed by a local
                 if rows is None:
                     out.append(s)
@@ -542,7 +544,25 @@ def unroll_literal_loops(trees: Dict[str, ast.Module], max_rows: int = 32) -> in
 
         for x in ast.walk(t):
             if isinstance(x, ast.FunctionDef):
-                loc = {y.id for y in ast.walk(x) if isinstance(y, ast.Name) and isinstance(y.ctx, ast.Store)} | {a.arg for a in x.args.args + x.args.kwonlyargs}
+                loc = {y.id: True for y in ast.walk(x) if isinstance(y, ast.Name) and isinstance(y.ctx, ast.Store)}
+                loc.update({a.arg: True for a in x.args.args + x.args.kwonlyargs})
+                # a local bound ONCE, at the top level of the function, to a literal tuple / list, never changed afterwards, and
+                # whose row elements are not re-assigned between the table and the loop: a table in the same sense
+                stores = {}
+                for y in ast.walk(x):
+                    if isinstance(y, ast.Name) and isinstance(y.ctx, (ast.Store, ast.Del)):
+                        stores[y.id] = stores.get(y.id, 0) + 1
+                tabs = {}
+                for b_ in x.body:
+                    if isinstance(b_, ast.Assign) and len(b_.targets) == 1 and isinstance(b_.targets[0], ast.Name) and isinstance(b_.value, (ast.Tuple, ast.List)) \
+                            and stores.get(b_.targets[0].id, 0) == 1 and b_.targets[0].id not in mutated:
+                        used = {z.id for z in ast.walk(b_.value) if isinstance(z, ast.Name)}
+                        later_stores = {z.id for c_ in x.body[x.body.index(b_) + 1:] for z in ast.walk(c_) if isinstance(z, ast.Name) and isinstance(z.ctx, (ast.Store, ast.Del))}
+                        later_attr = {_chain_text(z) for c_ in x.body[x.body.index(b_) + 1:] for z in ast.walk(c_) if isinstance(z, ast.Attribute) and isinstance(z.ctx, (ast.Store, ast.Del))}
+                        used_attr = {_chain_text(z) for z in ast.walk(b_.value) if isinstance(z, ast.Attribute)}
+                        if not (used & later_stores) and not (used_attr & later_attr):
+                            tabs[b_.targets[0].id] = b_.value
+                loc["__tables__"] = tabs
                 x.body = rewrite(x.body, loc)
     for mod in touched:
         renumber(trees[mod])
